@@ -54,7 +54,7 @@ fn generate(cli: &Cli) -> Vec<Case> {
         let mut rng = Rng::stream(cli.seed, rep);
         for intent in [Intent::Login, Intent::Transfer] {
             for with_secret in [false, true] {
-                for cookie_kind in 0..3 {
+                for cookie_kind in 0..6 {
                     for auth_ok in [true, false] {
                         for enc in enc_variants(&mut rng) {
                             let claimed = mk::ident(&mut rng, "claimed");
@@ -74,7 +74,11 @@ fn generate(cli: &Cli) -> Vec<Case> {
                             let class = match cookie_kind {
                                 0 => Class::Absent,
                                 1 => Class::Valid,
-                                _ => Class::BitFlip(rng.below(1200) as usize),
+                                2 => Class::BitFlip(rng.below(1200) as usize),
+                                // correctly signed, but unusable: the claimed identity must not slip through
+                                3 => Class::OtherIp("198.51.100.201:1234".into()),
+                                4 => Class::Aged(10 * 6 * 3600),
+                                _ => Class::SignedGarbage,
                             };
                             let ck = cookie::build(&mut rng, class, &sign_secret, &cfg.client_addr, 6 * 3600, &cookie_id, &cookie_props);
                             let accepted = cookie::accept(intent, &server_secret, true, &ck);
@@ -249,7 +253,7 @@ pub fn run_prop(cli: &Cli) -> i32 {
     let mut report = Report::new(
         cli,
         "exploration",
-        "cross product intent{login,transfer} × secret{none,set} × cookie{absent,valid,bit-flipped} × auth service{profile,error} × 16 Encryption Response variants (the honest one four times with fresh identities), with claimed / vouched / cookie identities pairwise different; a case is non-trivial when it reaches the Encryption Request; distinct = distinct cell of the cross product",
+        "cross product intent{login,transfer} × secret{none,set} × cookie{absent,valid,bit-flipped,signed for another IP,signed but expired,signed garbage} × auth service{profile,error} × 16 Encryption Response variants (the honest one four times with fresh identities), with claimed / vouched / cookie identities pairwise different; a case is non-trivial when it reaches the Encryption Request; distinct = distinct cell of the cross product",
     );
     report.assume("the authentication service is represented by a recording adapter whose verdict is scripted");
     let cases = generate(cli);
